@@ -397,6 +397,252 @@ def wl_packaging_matrix(run, rng, idx):
                      post=lambda T: (T.inv(), T @ projective.Point(np.ones(d + 1))), cls=(d,))
 
 
+# ---------------------------------------------------------------------------
+# packaging of SEQUENCE-valued parameters of the vectorised factories
+
+def sequence_packagings(vals, integer=False):
+    """the same k real values as every kind of sequence (label -> (object,
+    composite shape the result must have))."""
+    conv = int if integer else float
+    npconv = np.int64 if integer else np.float64
+    a = np.array([conv(v) for v in vals])
+    k = len(vals)
+    return {"ndarray": (a.copy(), (k,)),
+            "list": ([conv(v) for v in vals], (k,)),
+            "tuple": (tuple(conv(v) for v in vals), (k,)),
+            "list-of-numpy-scalars": ([npconv(v) for v in vals], (k,)),
+            "list-of-0d-arrays": ([np.array(conv(v)) for v in vals], (k,)),
+            "(k,1)-ndarray": (a.reshape(k, 1), (k, 1)),
+            "(1,k)-ndarray": (a.reshape(1, k), (1, k)),
+            "nested-(1,k)-list": ([[conv(v) for v in vals]], (1, k))}
+
+
+NDARRAY_FORMS = ("ndarray", "(k,1)-ndarray", "(1,k)-ndarray")
+
+
+def compare_sequence(run, entry, f, single, vals, only=None, integer=False, ref=None, cls=(),
+                     one_key_for_lists=False):
+    """f(sequence) for every packaging of the k values `vals`: floating-point
+    arrays of shape (composite shape of the sequence) + (shape for one value),
+    entry i equal to `single(vals[i])` (the factory applied to value i alone)
+    and, where given, to the numpy reference ref(value).  f and single return
+    an array or a tuple of arrays.
+
+    Seeded change C12-r6-2: Polygon.regular_polygon laid its vertex array out
+    with the vertex axis first: k radii gave n 'polygons' of k collinear
+    vertices (equal shapes when k == n); scalars of every kind were unaffected."""
+    mon = run.monitor("packaging")
+    k = len(vals)
+    singles = []
+    for v in vals:
+        r = single(float(v))
+        singles.append([np.asarray(x, dtype=float) for x in (r if isinstance(r, tuple) else (r,))])
+    expected = [np.stack([s[c] for s in singles]) for c in range(len(singles[0]))]
+    refs = None
+    if ref is not None:
+        rr_ = [ref(float(v)) for v in vals]
+        refs = [np.stack([np.asarray((x if isinstance(x, tuple) else (x,))[c], dtype=float) for x in rr_])
+                for c in range(len(expected))]
+        for c in range(len(expected)):
+            mon.judge(float(np.max(np.abs(expected[c] - refs[c]))) if expected[c].size else 0.0, 1e-8,
+                      "packaging/absolute-value/%s/python-scalar" % entry,
+                      "%s of one value is not the documented value" % entry,
+                      {"entry": entry, "values": list(vals)})
+    for label, (seq, cshape) in sequence_packagings(vals, integer).items():
+        if only is not None and label not in only:
+            continue
+        case = {"entry": entry, "packaging": label, "values": list(vals)}
+        run.current_case = case
+        if one_key_for_lists and label in LIST_FORMS:
+            label = "list-or-tuple"
+        try:
+            res = f(seq)
+            arrs = [np.asarray(x) for x in (res if isinstance(res, tuple) else (res,))]
+        except Exception as e:
+            import traceback
+            mon.fail("packaging/sequence-exception:%s/%s/%s" % (type(e).__name__, entry, label),
+                     "%s with the values as %s raised %s: %s"
+                     % (entry, label, type(e).__name__, str(e)[:160]), case, tb=traceback.format_exc())
+            continue
+        if any(a.dtype == np.dtype("O") or a.dtype.kind not in "fc" for a in arrs):
+            mon.fail("packaging/sequence-dtype/%s/%s" % (entry, label),
+                     "%s with the values as %s returned %s data" % (entry, label, [str(a.dtype) for a in arrs]),
+                     case)
+            continue
+        good = True
+        for c, a in enumerate(arrs):
+            want = tuple(cshape) + expected[c].shape[1:]
+            if a.shape != want:
+                mon.fail("packaging/sequence-shape/%s/%s" % (entry, label),
+                         "%s with %d values as %s: shape %r, expected %r (one unit per value)"
+                         % (entry, k, label, a.shape, want), case)
+                good = False
+                break
+            err = float(np.max(np.abs(a.reshape(expected[c].shape) - expected[c]))) if a.size else 0.0
+            if not mon.judge(err, TOL, "packaging/sequence-value/%s/%s" % (entry, label),
+                             "%s with the values as %s: entry i is not %s of value i alone"
+                             % (entry, label, entry), case):
+                good = False
+                break
+        if good:
+            run.note_class("sequence", entry, label, k, *cls)
+
+
+LIST_FORMS = ("list", "tuple", "list-of-numpy-scalars", "list-of-0d-arrays", "nested-(1,k)-list")
+
+# Open finding C12-list-valued-angle-distance (witnesses and candidate repair in
+# /verif/findings/): on the pinned tree these four entry points only work for
+# ndarray sequences.  `interior_angle / 2` raises TypeError for a list / tuple
+# in regular_polygon_radius (hence regular_polygon(angle=[...]), although
+# radius=[...] works), and `2 * r` in hyp_to_affine_dist REPEATS a list, so it
+# silently returns 2k wrong values (hence point_along([...]) raises ValueError).
+# Their list forms are driven by the workload `packaging-open-findings`, which
+# has a budget of 0 until the repair lands (replays of its cases run
+# regardless); then set SEQUENCE_ONLY = {} and give it a budget.
+SEQUENCE_ONLY = {"Polygon.regular_polygon(angle)": NDARRAY_FORMS,
+                 "hyperbolic.regular_polygon_radius": NDARRAY_FORMS,
+                 "hyperbolic.hyp_to_affine_dist": NDARRAY_FORMS,
+                 "TangentVector.point_along": NDARRAY_FORMS}
+
+
+def wl_packaging_sequence(run, rng, idx):
+    _packaging_sequence(run, rng, idx, SEQUENCE_ONLY, None)
+
+
+def wl_packaging_open_findings(run, rng, idx):
+    """the list / tuple forms of the entry points of SEQUENCE_ONLY."""
+    _packaging_sequence(run, rng, idx, {e: LIST_FORMS for e in SEQUENCE_ONLY}, set(SEQUENCE_ONLY))
+
+
+def _packaging_sequence(run, rng, idx, only_map, entries):
+    """every factory / helper that is vectorised over a real parameter, with k
+    values given as list, tuple, 1-d ndarray, list of NumPy scalars / 0-d arrays,
+    (k,1) and (1,k) arrays, nested list: one unit per value, each equal to the
+    call on that value alone.  (rotation_matrix, Isometry.standard_rotation,
+    standard_loxodromic and elliptic are documented as not vectorised.)"""
+    from geometry_tools import hyperbolic, projective, utils
+    from geometry_tools.hyperbolic import IdealPoint, Polygon, TangentVector, Point
+    n = int(rng.integers(3, 8))
+    # k == n is the case where a transposed layout has the right shape
+    k = n if idx % 3 == 0 else int(rng.integers(1, 6))
+    integer = idx % 4 == 3
+    d = int(rng.integers(2, 5))
+    if integer:
+        radii = [float(v) for v in rng.integers(1, 4, size=k)]
+        angles = [float(v) for v in rng.integers(-6, 7, size=k)]
+    else:
+        radii = [float(v) for v in rng.uniform(0.1, 3.0, size=k)]
+        angles = [float(v) for v in rng.uniform(-2 * math.pi, 2 * math.pi, size=k)]
+    th = 2 * math.pi * np.arange(n) / n
+
+    def compare(entry, *args, **kw):
+        if entries is None or entry in entries:
+            compare_sequence(run, entry, *args, only=only_map.get(entry), integer=integer,
+                             one_key_for_lists=entries is not None, **kw)
+
+    def polygon_ref(r):
+        kv = np.stack([math.tanh(r) * np.cos(th), math.tanh(r) * np.sin(th)], axis=-1)
+        return kv, np.stack([kv, np.roll(kv, -1, axis=0)], axis=-2)
+
+    def polygon_out(P):
+        return (np.asarray(P.coords("klein")), np.asarray(P.get_edges().endpoint_coords("klein")))
+    compare("Polygon.regular_polygon(radius)",
+            lambda s: polygon_out(Polygon.regular_polygon(n, radius=s)),
+            lambda v: polygon_out(Polygon.regular_polygon(n, radius=v)),
+            radii, ref=polygon_ref, cls=(n,))
+    # interior angles of a regular n-gon lie in (0, (n-2) pi / n)
+    top = (n - 2) * math.pi / n
+    if integer:
+        iangles = [1.0] * k if top > 1.0 else None
+        if iangles is not None and top > 2.0:
+            iangles = [float(v) for v in rng.integers(1, 3, size=k)]
+    else:
+        iangles = [float(v) * top for v in rng.uniform(0.05, 0.95, size=k)]
+    if iangles is not None:
+        compare("Polygon.regular_polygon(angle)",
+                lambda s: polygon_out(Polygon.regular_polygon(n, angle=s)),
+                lambda v: polygon_out(Polygon.regular_polygon(n, angle=v)),
+                iangles, cls=(n,))
+        compare("hyperbolic.regular_polygon_radius",
+                lambda s: hyperbolic.regular_polygon_radius(n, s),
+                lambda v: hyperbolic.regular_polygon_radius(n, v),
+                iangles, cls=(n,))
+    compare("hyperbolic.polygon_interior_angle",
+            lambda s: hyperbolic.polygon_interior_angle(n, s),
+            lambda v: hyperbolic.polygon_interior_angle(n, v), radii, cls=(n,))
+    compare("hyperbolic.hyp_to_affine_dist",
+            lambda s: hyperbolic.hyp_to_affine_dist(s),
+            lambda v: hyperbolic.hyp_to_affine_dist(v), radii, ref=lambda v: math.tanh(v))
+    dd = 2 if idx % 2 else d
+
+    def ideal_ref(a):
+        out = np.zeros(dd)
+        out[0], out[1] = math.cos(a), math.sin(a)
+        return out
+    compare("IdealPoint.from_angle",
+            lambda s: IdealPoint.from_angle(s, dimension=dd).coords("klein"),
+            lambda v: IdealPoint.from_angle(v, dimension=dd).coords("klein"),
+            angles, ref=ideal_ref, cls=(dd,))
+    compare("hyperbolic.get_boundary_point",
+            lambda s: hyperbolic.get_boundary_point(s).coords("klein"),
+            lambda v: hyperbolic.get_boundary_point(v).coords("klein"),
+            angles, ref=lambda a: np.array([math.cos(a), math.sin(a)]))
+
+    def along_ref(t):
+        out = np.zeros(d)
+        out[0] = math.tanh(t)
+        return out
+    compare("TangentVector.point_along",
+            lambda s: TangentVector.get_base_tangent(d, np.shape(s)).normalized().point_along(s).coords("klein"),
+            lambda v: TangentVector.get_base_tangent(d).normalized().point_along(v).coords("klein"),
+            [r - 1.5 for r in radii] if not integer else radii, ref=along_ref, cls=(d,))
+    for fname, fref in (("cos", math.cos), ("sin", math.sin)):
+        compare("utils." + fname, getattr(utils, fname), getattr(utils, fname), angles, ref=fref)
+    if entries is not None:
+        return
+    # sequences of coordinate vectors / matrices: one unit per entry
+    mon = run.monitor("packaging")
+    x = rh.rand_ball(rng, d, (k,), rmax=0.9)
+    for model in ("klein", "poincare", "halfspace", "projective"):
+        y = x.copy()
+        if model == "halfspace":
+            y[..., -1] = np.abs(y[..., -1]) + 0.1
+        elif model == "projective":
+            y = rh.klein_to_proj(x) * rng.uniform(0.5, 2.0, size=(k, 1))
+        single = np.stack([np.asarray(Point(row.tolist(), model=model).coords("klein"), dtype=float) for row in y])
+        for label, pk in matrix_packagings(y).items():
+            case = {"entry": "hyperbolic.Point(model=%s)" % model, "packaging": label, "coordinates": y}
+            run.current_case = case
+            got = np.asarray(Point(pk, model=model).coords("klein"))
+            if got.shape != single.shape:
+                mon.fail("packaging/sequence-shape/hyperbolic.Point(model=%s)/%s" % (model, label),
+                         "Point of %d coordinate vectors as %s: shape %r, expected %r"
+                         % (k, label, got.shape, single.shape), case)
+            elif mon.judge(float(np.max(np.abs(got - single))), TOL,
+                           "packaging/sequence-value/hyperbolic.Point(model=%s)/%s" % (model, label),
+                           "entry i of a Point built from a sequence of coordinate vectors is not the "
+                           "Point of vector i alone", case):
+                run.note_class("sequence", "Point", model, label, k, d)
+    Ms = np.stack([rand_sl2(rng) for _ in range(k)])
+    single = np.stack([np.asarray(hyperbolic.sl2_iso(M.tolist()).proj_data, dtype=float) for M in Ms])
+    for label, pk in (("ndarray", Ms.copy()), ("nested-list", Ms.tolist()),
+                      ("list-of-arrays", [M.copy() for M in Ms])):
+        case = {"entry": "hyperbolic.sl2_iso", "packaging": label, "matrices": Ms}
+        run.current_case = case
+        got = np.asarray(hyperbolic.sl2_iso(pk).proj_data)
+        if got.shape != single.shape or got.dtype.kind not in "fc":
+            mon.fail("packaging/sequence-shape/hyperbolic.sl2_iso/%s" % label,
+                     "sl2_iso of %d matrices as %s: shape %r dtype %s, expected %r floating"
+                     % (k, label, got.shape, got.dtype, single.shape), case)
+        elif mon.judge(float(np.max(np.abs(got - single))), TOL,
+                       "packaging/sequence-value/hyperbolic.sl2_iso/%s" % label,
+                       "entry i of sl2_iso of a sequence of matrices is not sl2_iso of matrix i alone", case):
+            run.note_class("sequence", "sl2_iso", label, k)
+    if idx < 2:
+        run.sample({"n": n, "k": k, "radii": radii, "angles": angles, "integer": integer})
+
+
+
 INT_POINTS = {
     # integer homogeneous / model coordinates of interior points, per model
     "projective": [[2, 1, 0], [3, 1, -1], [5, 2, 3], [-4, 1, 2], [7, -3, 2, 4]],
@@ -1632,6 +1878,8 @@ WORKLOADS = [
     Workload("packaging-matrix", wl_packaging_matrix, quick=12, thorough=300),
     Workload("packaging-coxeter", wl_packaging_coxeter, quick=8, thorough=64),
     Workload("packaging-integer-data", wl_packaging_integer_data, quick=25, thorough=250),
+    Workload("packaging-sequence", wl_packaging_sequence, quick=24, thorough=360),
+    Workload("packaging-open-findings", wl_packaging_open_findings, quick=0, thorough=0),
     Workload("rescaling", wl_rescaling, quick=240, thorough=6000),
     Workload("rescaling-ideal", wl_rescaling_ideal, quick=90, thorough=1800),
     Workload("rescaling-objects", wl_rescaling_objects, quick=160, thorough=3200),
